@@ -1223,7 +1223,9 @@ func runPlugins(args []string) error {
 		vecs = append(vecs, []string{"2001:db8::/64", "120"}, []string{"2001:db8::/64", "072"}, []string{"2001:db8:0:100::/56", "64"})
 		// valid range configurations (four arguments): small pools of sizes around the bitmap's word size are run into
 		// exhaustion by the battery (every request comes from another hardware address)
-		for _, rg := range [][2]string{{"10.0.0.200", "10.0.0.202"}, {"10.0.0.1", "10.0.0.2"}, {"192.168.0.250", "192.168.1.5"}, {"255.255.255.250", "255.255.255.255"}} {
+		for _, rg := range [][2]string{{"10.0.0.200", "10.0.0.202"}, {"10.0.0.1", "10.0.0.2"}, {"192.168.0.250", "192.168.1.5"}, {"255.255.255.250", "255.255.255.255"},
+			// the widest ranges there are: the whole IPv4 address space (2^32 addresses: one more than fits 32 bits), all but one, a /8
+			{"0.0.0.0", "255.255.255.255"}, {"0.0.0.1", "255.255.255.255"}, {"10.0.0.0", "10.255.255.255"}, {"0.0.0.0", "0.0.0.3"}} {
 			for _, lt := range []string{"30s", "0s", "1h"} {
 				vecs = append(vecs, []string{filepath.Join(*dir, fmt.Sprintf("range-%d.sqlite", len(vecs))), rg[0], rg[1], lt})
 			}
